@@ -131,7 +131,10 @@ def run_driver(ctx, pkg, test, newgo=False, extra=None, timeout=900, race=False,
             for line in f:
                 line = line.strip()
                 if line:
-                    cases.append(json.loads(line))
+                    try:
+                        cases.append(json.loads(line))
+                    except ValueError:
+                        out += "\n[verif: truncated case line in the driver output (driver crashed while writing)]"
     return DriverResult(rc == 0, compiled, out, cases, time.time() - t)
 
 
